@@ -971,9 +971,51 @@ def rule_registry(ctx):
                "getter does not instantiate and register every class of %s" % tup)
   for g, parts in (("GetRSAAllChecks", ("GetRSASingleChecks", "GetRSAAggregateChecks")), ("GetECAllChecks", ("GetECSingleChecks", "GetECAggregateChecks"))):
     f = repo.func("paranoid", g)
-    txt = ast.unparse(f.node)
-    ok = all(re.search(r"\.update\(%s\(\)\)" % p, txt) for p in parts)
-    ctx.record(R, f.where, "union", ok, "all = singles U aggregates" if ok else "does not merge both %s" % (parts,))
+    w = sym.Walker(repo, f)
+    w.run()
+    ups = [e for e in w.events if e.kind == "mutate" and e.data["method"] == "update"]
+    got = set()
+    recvs = set()
+    for e in ups:
+      a0 = as_poly(e.data["args"][0]).as_atom() if e.data["args"] and not isinstance(e.data["args"][0], (Seq, Const, tuple)) else None
+      if a0 is not None and a0.kind == "call":
+        got.add(str(a0.args[0].as_atom().args[0]).split(":")[-1])
+      r = as_poly(e.data["recv"])
+      ra = r.as_atom()
+      while ra is not None and ra.kind == "mut":
+        r = as_poly(ra.args[0])
+        ra = r.as_atom()
+      recvs.add(repr(r))
+    ok = set(parts) <= got and len(recvs) == 1
+    ctx.record(R, f.where, "union", ok, "all = singles U aggregates, merged into one table" if ok else "does not merge both %s into one table" % (parts,))
+  # lazy initialisation: a table is filled exactly when *that* table is still empty, and that table is what is returned
+  for g in sorted(list(pairs) + ["GetRSAAllChecks", "GetECAllChecks"]):
+    f = repo.func("paranoid", g)
+    w = sym.Walker(repo, f)
+    w.run()
+    probs = []
+    writes = [e for e in w.events if e.kind == "store" or (e.kind == "mutate" and e.data["method"] in ("update", "setdefault"))]
+    tables = set()
+    for e in writes:
+      base = as_poly(e.data["base"] if e.kind == "store" else e.data["recv"])
+      ba = base.as_atom()
+      while ba is not None and ba.kind in ("mut", "upd"):
+        base = as_poly(ba.args[0])
+        ba = base.as_atom()
+      # a loop-head alias stands for the value before the loop
+      for info in w.loop_info.values():
+        for vis in info["visits"]:
+          for nm, hv in vis["head"].env.items():
+            if hv is not None and not isinstance(hv, (Seq, Const, tuple)) and as_poly(hv) == base and vis["pre_env"].get(nm) is not None and not isinstance(vis["pre_env"][nm], (Seq, Const, tuple)):
+              base = as_poly(vis["pre_env"][nm])
+      tables.add(repr(base))
+      guards = [repr(as_poly(fc[1])) for fc in e.facts if fc[0] == "falsy" and not isinstance(fc[1], Seq)]
+      guards += [repr(as_poly(fc[2])) for fc in e.facts if fc[0] == "cmp" and fc[1] == "Eq" and not isinstance(fc[2], Seq) and as_poly(fc[3]).is_zero() and False]
+      if repr(base) not in guards:
+        probs.append("a table is filled under a test of %s, not of the table that is filled" % (", ".join(sorted(set(guards)))[:120] or "nothing"))
+    if len(tables) != 1:
+      probs.append("%d tables are written" % len(tables))
+    ctx.record(R, f.where, "lazy initialisation tests the table it fills", not probs, "; ".join(sorted(set(probs))) or "filled only while empty; one table")
   # module-level mutable state of paranoid.py
   mut = []
   for name, node in m.consts.items():
